@@ -87,6 +87,10 @@ pub fn zero85_encode(xs: &mut Xstate) -> Xresult {
 
 pub fn zero85_decode_res(xs: &mut Xstate) -> Xresult1<Xbitstr> {
     let s = xs.pop_data()?.to_xstr()?;
+    if s.len() % 5 == 0 && s.ends_with("#####") {
+        // a tail chunk made only of padding marks is not valid text (and makes z85 3.0 panic)
+        return Err(Xerr::ErrorMsg(xeh_xstr!("zero85 decode error")));
+    }
     let res = z85::decode(&s)
         .map_err(|_| Xerr::ErrorMsg(xeh_xstr!("zero85 decode error")))?;
     Ok(Xbitstr::from(res))
